@@ -14,7 +14,7 @@ import (
 // observes alone.  The race detector (a -race build) judges synchronisation;
 // its reports are collected by the caller through the GORACE log.
 func runC17(g Glue, j *Job, res *JobResult) {
-	e := &env{g: g, full: true}
+	e := &env{g: g, full: true, tokMethods: true}
 	n := len(j.Tasks)
 	solo := func() [][]string {
 		out := make([][]string, n)
